@@ -1031,18 +1031,21 @@ func (s *Service) ProcessRequest(ctx *core.Context, m map[string]interface{}, ou
 	case "/api/loc/facts/take": // Params: pattern
 		m["uri"] = "/api/loc/facts/search"
 		m["take"] = true
-		s.ProcessRequest(ctx, m, out)
+		return s.ProcessRequest(ctx, m, out)
 
 	case "/api/loc/facts/replace": // Params: pattern, fact
 		// Really a 'take' followed by a 'add'.
 		m["uri"] = "/api/loc/facts/search"
 		m["take"] = true
 		core.Log(core.INFO, ctx, "service.ProcessRequest", "app_tag", "/api/loc/facts/replace", "phase", "take")
-		s.ProcessRequest(ctx, m, ioutil.Discard)
+		if _, err := s.ProcessRequest(ctx, m, ioutil.Discard); err != nil {
+			// Don't add when the take failed.
+			return nil, err
+		}
 
 		core.Log(core.INFO, ctx, "service.ProcessRequest", "app_tag", "/api/loc/facts/replace", "phase", "add")
 		m["uri"] = "/api/loc/facts/add"
-		s.ProcessRequest(ctx, m, out)
+		return s.ProcessRequest(ctx, m, out)
 
 	case "/api/loc/facts/query": // Params: query
 		query, _, err := getMapParam(m, "query", true)
